@@ -243,6 +243,8 @@ type Gen struct {
 	received [][2][]byte // (message, attestation) of successful receives, for replays
 	failedRx []ct.MsgReceiveMessage
 	BigAmts  bool
+	queue    []Tx // transactions scheduled to run next (follow-ups of probes)
+	noSameBlock bool
 }
 
 func NewGen(e *Engine) *Gen { return &Gen{E: e, R: e.Rc.Rand, inNonce: 1000} }
@@ -422,9 +424,14 @@ func (g *Gen) Inbound(perturb bool) *ct.MsgReceiveMessage {
 func (g *Gen) Next() Tx {
 	e, r := g.E, g.R
 	m := e.M
+	if len(g.queue) > 0 {
+		tx := g.queue[0]
+		g.queue = g.queue[1:]
+		return tx
+	}
 	perturb := r.Intn(3) == 0
 	var msgs []sdk.Msg
-	if r.Intn(25) == 0 {
+	if r.Intn(20) == 0 {
 		return g.RollbackProbe()
 	}
 	nm := 1
@@ -606,6 +613,9 @@ func (g *Gen) admin(m *State) sdk.Msg {
 	case 8:
 		return &ct.MsgRemoveRemoteTokenMessenger{From: g.maybeWrong(m.Owner), DomainId: Domains[r.Intn(len(Domains))]}
 	case 9, 10:
+		if r.Intn(6) == 0 { // an identifier that is a string prefix of a full key's spelling (e.g. a 20-byte address-like hex)
+			return &ct.MsgEnableAttester{From: g.maybeWrong(m.AM), Attester: AttesterPool[r.Intn(len(AttesterPool))].Spell(r.Intn(2))[:[]int{4, 42, 66}[r.Intn(3)]]}
+		}
 		return &ct.MsgEnableAttester{From: g.maybeWrong(m.AM), Attester: AttesterPool[r.Intn(len(AttesterPool))].Spell(r.Intn(4))}
 	case 11, 12:
 		a := AttesterPool[r.Intn(len(AttesterPool))].Spell(r.Intn(4))
@@ -703,43 +713,125 @@ func sortedStrings(m map[string]bool) []string {
 // RollbackProbe builds a transaction whose first message is a state-changing action by the role holder
 // (it would succeed alone), whose second message reads the state just written, and whose last message
 // fails - so the whole transaction is rolled back. Anything the first message leaked outside the store
-// (process memory) shows up in later transactions.
+// (process memory, in-place mutation of store-owned buffers) shows up in the follow-up transactions that are
+// queued behind it: each is the kind of request whose outcome would differ had the first message taken effect.
 func (g *Gen) RollbackProbe() Tx {
-	r, m := g.R, g.E.M
-	var first sdk.Msg
-	switch r.Intn(8) {
+	r, m, e := g.R, g.E.M, g.E
+	var first, reader sdk.Msg
+	var follow []sdk.Msg
+	nw := g.acct()
+	att := func(raw []byte) []byte { return e.Attest(raw, r.Intn(3)) }
+	plainInbound := func() sdk.Msg {
+		g.inNonce++
+		in := &InMsg{Version: 0, Src: 1, Dst: 4, Nonce: g.inNonce, Sender: g.rand32(), Recipient: g.rand32(), Caller: make([]byte, 32), Body: []byte("probe")}
+		raw := in.Bytes()
+		return &ct.MsgReceiveMessage{From: g.acct(), Message: raw, Attestation: att(raw)}
+	}
+	switch r.Intn(14) {
 	case 0:
-		first = &ct.MsgUpdatePauser{From: m.Owner, NewPauser: g.acct()}
+		first = &ct.MsgUpdatePauser{From: m.Owner, NewPauser: nw}
+		follow = []sdk.Msg{&ct.MsgPauseBurningAndMinting{From: nw}, &ct.MsgUnpauseBurningAndMinting{From: m.Pauser}}
 	case 1:
-		first = &ct.MsgUpdateAttesterManager{From: m.Owner, NewAttesterManager: g.acct()}
+		first = &ct.MsgUpdateAttesterManager{From: m.Owner, NewAttesterManager: nw}
+		follow = []sdk.Msg{&ct.MsgEnableAttester{From: nw, Attester: freshAttester(m, 3)}}
 	case 2:
-		first = &ct.MsgUpdateTokenController{From: m.Owner, NewTokenController: g.acct()}
+		first = &ct.MsgUpdateTokenController{From: m.Owner, NewTokenController: nw}
+		follow = []sdk.Msg{&ct.MsgSetMaxBurnAmountPerMessage{From: nw, LocalToken: "uusdc", Amount: mkInt(big.NewInt(7))}}
 	case 3:
-		first = &ct.MsgUpdateOwner{From: m.Owner, NewOwner: g.acct()}
+		if m.HasPending && r.Intn(2) == 0 {
+			first = &ct.MsgAcceptOwner{From: m.Pending}
+			follow = []sdk.Msg{&ct.MsgUpdatePauser{From: m.Pending, NewPauser: m.Pending}, &ct.MsgUpdateMaxMessageBodySize{From: m.Owner, MessageSize: 8000}}
+		} else {
+			first = &ct.MsgUpdateOwner{From: m.Owner, NewOwner: nw}
+			follow = []sdk.Msg{&ct.MsgAcceptOwner{From: nw}}
+		}
 	case 4:
-		first = &ct.MsgEnableAttester{From: m.AM, Attester: freshAttester(m, r.Intn(8))}
+		x := freshAttester(m, r.Intn(8))
+		first = &ct.MsgEnableAttester{From: m.AM, Attester: x}
+		reader = &ct.MsgUpdateSignatureThreshold{From: m.AM, Amount: uint32(len(m.Attesters) + 2)}
+		follow = []sdk.Msg{&ct.MsgUpdateSignatureThreshold{From: m.AM, Amount: uint32(len(m.Attesters) + 1)}, plainInbound()}
 	case 5:
 		first = &ct.MsgDisableAttester{From: m.AM, Attester: firstAttester(m)}
+		reader = &ct.MsgDisableAttester{From: m.AM, Attester: "0x00"}
+		follow = []sdk.Msg{plainInbound(), &ct.MsgUpdateSignatureThreshold{From: m.AM, Amount: uint32(len(m.Attesters))}}
 	case 6:
 		if m.PausedSR {
 			first = &ct.MsgUnpauseSendingAndReceivingMessages{From: m.Pauser}
 		} else {
 			first = &ct.MsgPauseSendingAndReceivingMessages{From: m.Pauser}
 		}
-	default:
+		follow = []sdk.Msg{&ct.MsgSendMessage{From: g.acct(), DestinationDomain: 0, Recipient: g.rand32(), MessageBody: []byte("after")}}
+	case 7:
 		first = &ct.MsgUpdateSignatureThreshold{From: m.AM, Amount: uint32(1 + r.Intn(len(m.Attesters)+1))}
-	}
-	var reader sdk.Msg
-	switch r.Intn(4) {
-	case 0:
-		reader = g.Inbound(false)
-	case 1:
-		reader = &ct.MsgUpdateSignatureThreshold{From: m.AM, Amount: uint32(1 + r.Intn(len(m.Attesters)+1))}
-	case 2:
-		reader = &ct.MsgSendMessage{From: g.acct(), DestinationDomain: 0, Recipient: g.rand32(), MessageBody: []byte("probe")}
+		follow = []sdk.Msg{plainInbound()}
+	case 8, 9: // register / rotate a token messenger, then deposit to that domain
+		d := Domains[r.Intn(len(Domains))]
+		if _, has := m.Messengers[d]; has {
+			first = &ct.MsgRemoveRemoteTokenMessenger{From: m.Owner, DomainId: d}
+			reader = &ct.MsgAddRemoteTokenMessenger{From: m.Owner, DomainId: d, Address: Messenger(d, 2)}
+		} else {
+			first = &ct.MsgAddRemoteTokenMessenger{From: m.Owner, DomainId: d, Address: Messenger(d, 2)}
+			reader = &ct.MsgAddRemoteTokenMessenger{From: m.Owner, DomainId: d, Address: Messenger(d, 1)} // fails: exists
+		}
+		follow = []sdk.Msg{&ct.MsgDepositForBurn{From: Acct(RichIx), Amount: mkInt(big.NewInt(3)), DestinationDomain: d, MintRecipient: g.rand32(), BurnToken: e.MintDenom()}}
+	case 10, 11: // relink a token pair to another denom / link a new one, then receive on it
+		d, tok := RemoteDomains[r.Intn(2)], Token(r.Intn(2))
+		if dd, tt, ok := e.pickLinked(r, true); ok {
+			d, tok = dd, tt
+		}
+		if cur, has := m.Pairs[pairKey{d, string(tok)}]; has {
+			first = &ct.MsgUnlinkTokenPair{From: m.TC, RemoteDomain: d, RemoteToken: tok, LocalToken: cur}
+			reader = &ct.MsgLinkTokenPair{From: m.TC, RemoteDomain: d, RemoteToken: tok, LocalToken: "ueure"}
+		} else {
+			first = &ct.MsgLinkTokenPair{From: m.TC, RemoteDomain: d, RemoteToken: tok, LocalToken: "uusdc"}
+			reader = &ct.MsgLinkTokenPair{From: m.TC, RemoteDomain: d, RemoteToken: tok, LocalToken: "ueure"} // fails: exists
+		}
+		g.inNonce++
+		sender := m.Messengers[d]
+		if len(sender) != 32 {
+			sender = Messenger(d, 0)
+		}
+		in := &InMsg{Version: 0, Src: d, Dst: 4, Nonce: g.inNonce, Sender: sender, Recipient: modulePadded, Caller: make([]byte, 32),
+			Body: BurnBody(0, tok, ref.Pad32(AcctBytes(r.Intn(NAccounts))), big.NewInt(int64(1+r.Intn(500))), g.rand32())}
+		raw := in.Bytes()
+		follow = []sdk.Msg{&ct.MsgReceiveMessage{From: g.acct(), Message: raw, Attestation: att(raw)}}
+	case 12:
+		first = &ct.MsgSetMaxBurnAmountPerMessage{From: m.TC, LocalToken: "uusdc", Amount: mkInt(big.NewInt(1))}
+		follow = []sdk.Msg{&ct.MsgDepositForBurn{From: Acct(RichIx), Amount: mkInt(big.NewInt(2)), DestinationDomain: 0, MintRecipient: g.rand32(), BurnToken: e.MintDenom()}}
 	default:
-		reader = &ct.MsgPauseBurningAndMinting{From: m.Pauser}
+		first = &ct.MsgUpdateMaxMessageBodySize{From: m.Owner, MessageSize: 1}
+		follow = []sdk.Msg{&ct.MsgSendMessage{From: g.acct(), DestinationDomain: 0, Recipient: g.rand32(), MessageBody: []byte("longer than one")}}
+	}
+	if reader == nil {
+		switch r.Intn(3) {
+		case 0:
+			reader = g.Inbound(false)
+		case 1:
+			reader = &ct.MsgSendMessage{From: g.acct(), DestinationDomain: 0, Recipient: g.rand32(), MessageBody: []byte("probe")}
+		default:
+			reader = &ct.MsgPauseBurningAndMinting{From: m.Pauser}
+		}
 	}
 	failing := &ct.MsgRemoveRemoteTokenMessenger{From: "not-the-owner", DomainId: 0}
-	return Tx{Msgs: []sdk.Msg{first, reader, failing}, Note: "rollback probe"}
+	probe := []sdk.Msg{first, reader, failing}
+	if g.noSameBlock || r.Intn(2) == 0 || len(follow) == 0 {
+		for _, f := range follow {
+			g.queue = append(g.queue, Tx{Msgs: msgs1(f), Note: "follow-up of a rollback probe"})
+		}
+		return Tx{Msgs: probe, Note: "rollback probe"}
+	}
+	// same block: the rolled-back probe first, then the request whose outcome would differ had it taken effect
+	for _, f := range follow[1:] {
+		g.queue = append(g.queue, Tx{Msgs: msgs1(f), Note: "follow-up of a rollback probe"})
+	}
+	return Tx{Pre: [][]sdk.Msg{probe}, Msgs: msgs1(follow[0]), Note: "follow-up in the same block as a rolled-back probe"}
+}
+
+// RollbackProbeFirstOnly: the state-changing first message of a rollback probe as its own transaction (for
+// simulation); its follow-ups are queued as usual.
+func (g *Gen) RollbackProbeFirstOnly() Tx {
+	g.noSameBlock = true
+	tx := g.RollbackProbe()
+	g.noSameBlock = false
+	return Tx{Msgs: tx.Msgs[:2], Note: "simulated " + tx.Note}
 }
